@@ -138,11 +138,15 @@ impl Context<'_> {
             // type name would be compared against the exact symbol it
             // resolves to and never match.
             if historical && !matches!(column_of(kind, key), Some("__id")) {
+                // Only what the present-day path would have pushed into an
+                // index is a string to normalize; any other matcher value
+                // (`{confidence: 0.9}`) is compared with the view as it is,
+                // exactly as it is today.
                 let slot = match slot {
-                    Slot::Value(value) => {
+                    Slot::Value(value) if column_of(kind, key).is_some() => {
                         Slot::Value(Json::String(self.matcher_text(kind, key, &value)?))
                     }
-                    bind => bind,
+                    other => other,
                 };
                 post.push((key.clone(), slot));
                 continue;
